@@ -13,7 +13,7 @@ VARIABLES l, obs, sc, viol
 ovars == <<l, obs, sc, viol>>
 
 \* hook-level events are skipped, except the few that carry facts no API-level event can (computed backoff delays)
-IsHook(e) == SubSeq(e.ev, 1, 2) = "h:" /\ e.ev \notin {"h:backoff.next"}
+IsHook(e) == SubSeq(e.ev, 1, 2) = "h:" /\ e.ev \notin {"h:backoff.next", "h:wl.enter", "h:wl.exit"}
 Cfg(e) == [ObsInit EXCEPT !.cfgErrors = IF "errors" \in DOMAIN e.args THEN e.args.errors ELSE FALSE,
                           !.cfgNoReconnect = IF "noreconnect" \in DOMAIN e.args THEN e.args.noreconnect ELSE FALSE,
                           !.cfgHooks = IF "hooks" \in DOMAIN e THEN e.hooks ELSE FALSE,
